@@ -42,7 +42,10 @@ def gen(rng, tier, idx):
     rk = rng.derive("knobs")
     model = rk.choice(["nosv", "nanos6"])
     models = [model] + (["kernel"] if rk.chance(10) else [])
-    desc = mgen.gen_world_desc(rng.derive("world"), nlooms=(1, 2), ncpus=(1, 4), nprocs=(1, 2), nthreads=(1, 4), models=models)
+    ncpus = (1, 4)
+    if rk.chance(2):
+        ncpus = rk.choice([(64, 64), (63, 66), (100, 130)])     # row counts around multiples of 64
+    desc = mgen.gen_world_desc(rng.derive("world"), nlooms=(1, 2), ncpus=ncpus, nprocs=(1, 2), nthreads=(1, 4), models=models)
     g = mgen.Gen(rng.derive("workload"), desc,
                  knobs={"w_state": 14, "w_aff": 8, "w_region": 25, "w_task": 40, "w_flush": 1, "w_filler": 1, "w_idle": 12,
                         "w_kernel": 0, "pause_needs_region": True, "maxdepth": rk.choice([2, 3, 5]), "p_vcpu": 8,
